@@ -274,9 +274,12 @@ def e1_names(obs):
 # corpus build
 
 class Corpus:
-    def __init__(self, name, fw="sylvia"):
+    def __init__(self, name, fw="sylvia", features="full"):
+        """features: "full" (every optional feature of the framework on) or "min" (only mt + iterator); the two
+        feature sets are built in separate target directories."""
         self.name = name
         self.fw = fw
+        self.features = features
         self.root = os.path.join(core.BUILD, "corpus", name)
         self.programs = []     # (pid, source text)
         self.shards = {}       # pid -> shard index
@@ -304,10 +307,12 @@ class Corpus:
             d = os.path.join(self.root, sname)
             os.makedirs(os.path.join(d, "src"), exist_ok=True)
             dep = '%s = { %spath = "%s", features = %s }' % (
-                self.fw, 'package = "sylvia", ' if self.fw != "sylvia" else "", os.path.join(core.REPO, "sylvia"), SYLVIA_FEATURES)
+                self.fw, 'package = "sylvia", ' if self.fw != "sylvia" else "", os.path.join(core.REPO, "sylvia"),
+                SYLVIA_FEATURES if self.features == "full" else '["mt", "iterator"]')
             write_if_changed(os.path.join(d, "Cargo.toml"),
-                             '[package]\nname = "%s_%s"\nversion = "0.0.0"\nedition = "2021"\npublish = false\n\n[[bin]]\nname = "%s_%s"\npath = "src/main.rs"\n\n[dependencies]\n%s\nvsupport = { path = "%s" }\n' % (
-                                 self.name.replace("-", "_"), sname, self.name.replace("-", "_"), sname, dep, VSUPPORT))
+                             '[package]\nname = "%s_%s"\nversion = "0.0.0"\nedition = "2021"\npublish = false\n\n[[bin]]\nname = "%s_%s"\npath = "src/main.rs"\n\n[dependencies]\n%s\nvsupport = { path = "%s"%s }\n' % (
+                                 self.name.replace("-", "_"), sname, self.name.replace("-", "_"), sname, dep, VSUPPORT,
+                                 "" if self.features == "full" else ", default-features = false"))
             main = ["#![allow(unused, dead_code, deprecated, clippy::all)]"]
             want_files = set(["main.rs"])
             for pid, text in grp:
@@ -333,7 +338,7 @@ class Corpus:
     def build(self, check_only=False):
         """Builds all shards.  Programs that do not compile are attributed through diagnostic spans
         (self.failed), removed, and the rest is rebuilt.  Returns build wall time."""
-        tgt = os.path.join(core.BUILD, "target-e2")
+        tgt = os.path.join(core.BUILD, "target-e2" if self.features == "full" else "target-e2min")
         env = core.cargo_env({"CARGO_TARGET_DIR": tgt})
         total = 0.0
         for attempt in range(4):
